@@ -241,6 +241,22 @@ func Build(g Geometry, proxy string) (*Tor, error) {
 	return x, nil
 }
 
+// BuildMagnet prepares the same torrent as Build, but added by info-hash
+// only: its metadata is incomplete until some peer delivers x.Info.
+func BuildMagnet(g Geometry, proxy string) (*Tor, error) {
+	meta, info, content, hashes := Metainfo(g)
+	h := sha1.Sum(info)
+	t, err := tor.New(proxy, hash.Hash(h[:]), "", nil, 0, nil, nil)
+	if err != nil {
+		return nil, err
+	}
+	t.Log.SetOutput(discard{})
+	x := &Tor{T: t, G: g, Content: content, Hashes: hashes, Meta: meta, Info: info,
+		PieceSize: g.PieceSize, Length: g.total()}
+	x.N = int((x.Length + x.PieceSize - 1) / x.PieceSize)
+	return x, nil
+}
+
 type discard struct{}
 
 func (discard) Write(p []byte) (int, error) { return len(p), nil }
